@@ -465,9 +465,21 @@ def run_trace(steps, t=0, exps=None):
                     delattr(resp, prop)
                 elif op == "assign":
                     val = _assign_value(step, kind)
-                    if step["tag"] == "value" and kind == "wa":
-                        views[step["vw"]] = (prop, kind, name, val)
-                        vobj = val
+                    if step.get("vw"):
+                        # the caller keeps a reference to the assigned object(s) and may mutate it later
+                        tag = step["tag"]
+                        if tag == "value" and kind in ("wa", "csp", "cr"):
+                            vobj = val
+                        elif tag == "list" and kind == "set":
+                            from werkzeug.datastructures import HeaderSet
+
+                            vobj = val = HeaderSet(val)
+                        elif tag == "list" and kind == "wa" and val:
+                            vobj = val[0]
+                            if step.get("n") and len(val) > 1:
+                                views[step["n"]] = (prop, kind, name, val[1])
+                        if vobj is not None:
+                            views[step["vw"]] = (prop, kind, name, vobj)
                     setattr(resp, prop, val)
                 else:
                     ln["rb"] = _view_op(kind, vobj, step)
@@ -584,7 +596,8 @@ def prop_ops(prop, small=False):
         out += [{"op": "direct_edit", "prop": prop, "y": y} for y in ("Cookie, Accept", "cookie", '"x y", Accept', " Cookie ,accept")]
         out += [{"op": "assign", "prop": prop, "tag": "none"}, {"op": "assign", "prop": prop, "tag": "text", "x": "Accept, Cookie"},
                 {"op": "assign", "prop": prop, "tag": "text", "x": ""},
-                {"op": "assign", "prop": prop, "tag": "list", "xs": ["Cookie", "x y"]}, {"op": "assign", "prop": prop, "tag": "list", "xs": []}]
+                {"op": "assign", "prop": prop, "tag": "list", "xs": ["Cookie", "x y"]}, {"op": "assign", "prop": prop, "tag": "list", "xs": []},
+                {"op": "assign", "prop": prop, "tag": "list", "xs": ["Cookie", "Accept"], "vw": 2}]  # HeaderSet object, reference kept
     elif kind == "cc":
         out += [{"op": "direct_edit", "prop": prop, "y": y} for y in ("max-age=3, no-cache", "max-age=0, s-maxage=0, no-cache=\"\"", "private=\"a,b\", public", "no-store", "MAX-AGE = 5")]
     elif kind == "csp":
@@ -592,7 +605,8 @@ def prop_ops(prop, small=False):
         out += [{"op": "assign", "prop": prop, "tag": "none"}, {"op": "assign", "prop": prop, "tag": "text", "x": "default-src 'none'"},
                 {"op": "assign", "prop": prop, "tag": "value", "ps": [["default-src", "'self'"], ["img-src", "*"]]},
                 {"op": "assign", "prop": prop, "tag": "value", "ps": []},
-                {"op": "assign", "prop": prop, "tag": "value", "ps": [["sandbox", ""], ["default-src", "'self'"]]}]
+                {"op": "assign", "prop": prop, "tag": "value", "ps": [["sandbox", ""], ["default-src", "'self'"]]},
+                {"op": "assign", "prop": prop, "tag": "value", "ps": [["default-src", "'self'"], ["img-src", "*"]], "vw": 2}]
     elif kind == "cr":
         out += [{"op": "direct_edit", "prop": prop, "y": y} for y in ("bytes 0-9/100", "bytes */0", "bytes 0-0/1", "bytes */50", "bytes 5-9/*", "bytes 0-0/*", "garbage")]
         out += [{"op": "assign", "prop": prop, "tag": "none"}, {"op": "assign", "prop": prop, "tag": "text", "x": "bytes 1-2/3"},
@@ -602,12 +616,15 @@ def prop_ops(prop, small=False):
                 {"op": "assign", "prop": prop, "tag": "value", "m": [None, None, 0], "y": "bytes"},
                 {"op": "assign", "prop": prop, "tag": "value", "m": [0, 1, 1], "y": "bytes"},
                 {"op": "assign", "prop": prop, "tag": "value", "m": [0, 1, None], "y": "items"},
-                {"op": "assign", "prop": prop, "tag": "text", "x": "bytes */0"}]
+                {"op": "assign", "prop": prop, "tag": "text", "x": "bytes */0"},
+                {"op": "assign", "prop": prop, "tag": "value", "m": [0, 5, 20], "y": "bytes", "vw": 2}]
     elif kind == "wa":
         out += [{"op": "direct_edit", "prop": prop, "y": y} for y in ('Basic realm="x"', 'Basic realm=""', "Bearer abc123", 'Digest realm="a b", nonce="n", qop="auth"', "Negotiate")]
         out += [{"op": "assign", "prop": prop, "tag": "none"}, {"op": "del_prop", "prop": prop},
                 {"op": "assign", "prop": prop, "tag": "list", "ws": []},
                 {"op": "assign", "prop": prop, "tag": "list", "ws": [["basic", None, [["realm", "x"]]], ["bearer", "tok1", []]]},
+                {"op": "assign", "prop": prop, "tag": "list", "ws": [["basic", None, [["realm", "x"]]], ["bearer", "tok1", []]], "vw": 2, "n": 1},
+                {"op": "assign", "prop": prop, "tag": "list", "ws": [["digest", None, [["realm", "r"], ["nonce", "n"]]]], "vw": 1},
                 {"op": "assign", "prop": prop, "tag": "value", "w": ["digest", None, [["realm", "r"], ["nonce", "n"], ["algorithm", "MD5"]]], "vw": 2},
                 {"op": "assign", "prop": prop, "tag": "value", "w": ["bearer", "t0k", []], "vw": 1},
                 {"op": "assign", "prop": prop, "tag": "value", "w": ["bearer", "", []], "vw": 2},
